@@ -57,7 +57,7 @@ Theorem C08_reopen_works : forall s,
   r2 = LOk /\
   exists c, nth_error (lf_objs s2) (length (lf_objs s)) = Some c /\
             lc_id c = 1 /\ lc_state c = OPEN /\ lc_confirm c = false /\ lc_inbound c = 0 /\
-            lc_errs c = 0 /\ lc_registered c = true /\
+            lc_errs c = [] /\ lc_registered c = true /\
             snd (lstep s2 (LDeclare (length (lf_objs s)))) = LOk.
 Proof. exact reopen_works. Qed.
 Print Assumptions C08_reopen_works.
@@ -68,7 +68,7 @@ Theorem C08_channel_reopen_fresh : forall s k c,
   lc_registered c = true -> lc_state c = CLOSED ->
   let '(s', r) := lstep s (LChOpen k) in
   r = LOk /\ exists c', nth_error (lf_objs s') k = Some c' /\ lc_id c' = lc_id c /\
-                        lc_state c' = OPEN /\ lc_confirm c' = false /\ lc_inbound c' = 0 /\ lc_errs c' = 0.
+                        lc_state c' = OPEN /\ lc_confirm c' = false /\ lc_inbound c' = 0 /\ lc_errs c' = [].
 Proof. exact channel_reopen_fresh. Qed.
 Print Assumptions C08_channel_reopen_fresh.
 
